@@ -242,4 +242,67 @@ def collectFrom : Nat → List (List Char) → List (Nat × List Char)
 def mypyComments (source : List Char) : List (Nat × List Char) :=
   collectFrom 1 (splitOn '\n' source)
 
+/-! ## module-level `# type: ignore`  (`ASTConverter.visit_Module` / `translate_stmt_list`) -/
+
+/-- what `translate_stmt_list(ismodule=True)` looks at in `stmts[0]`: its `lineno`, and — for a
+    FunctionDef / AsyncFunctionDef / ClassDef with a non-empty `decorator_list` — the line of the first decorator -/
+structure FirstStmt where
+  line : Nat
+  firstDecoratorLine : Option Nat
+deriving Repr, DecidableEq
+
+/-- `ASTConverter.get_lineno`: a decorated definition *starts* at its first decorator (since Python 3.8 the
+    node's own `lineno` is the line of the `def` / `class` keyword) -/
+def getLineno (s : FirstStmt) : Nat :=
+  match s.firstDecoratorLine with
+  | some d => d
+  | none => s.line
+
+abbrev Codes := List (List Char)
+
+/-- `visit_Module`: `self.type_ignores[ti.lineno] = parsed` for every valid tag; the lines whose tag is invalid
+    get the 'Invalid "type: ignore" comment' error instead -/
+def buildIgnores : List (Nat × Option (List Char)) → List (Nat × Codes) × List Nat
+  | [] => ([], [])
+  | (l, tag) :: r =>
+    match parseTag tag, buildIgnores r with
+    | some cs, (ign, bad) => ((l, cs) :: ign.filter (fun p => p.1 != l), bad)
+    | none, (ign, bad) => (ign, l :: bad)
+
+/-- `min(self.type_ignores)` -/
+def minLine : List (Nat × Codes) → Option Nat
+  | [] => none
+  | p :: r =>
+    match minLine r with
+    | none => some p.1
+    | some m => some (if p.1 ≤ m then p.1 else m)
+
+def lookupLine (l : Nat) : List (Nat × Codes) → Option Codes
+  | [] => none
+  | p :: r => if p.1 = l then some p.2 else lookupLine l r
+
+structure ModuleIgnore where
+  /-- the whole body is wrapped in one block marked unreachable (nothing in the module is checked) -/
+  wholeModule : Bool
+  /-- `TYPE_IGNORE_WITH_ERRCODE_ON_MODULE` is reported at this line with these codes -/
+  errCodes : Option (Nat × Codes)
+  /-- `MypyFile.ignored_lines` -/
+  ignores : List (Nat × Codes)
+deriving Repr, DecidableEq
+
+/-- `translate_stmt_list(stmts, ismodule=True)`: a `# type: ignore` comment **before the first statement**
+    (decorator-aware: `get_lineno`) ignores the whole module; only the first such comment is consumed
+    (`self.type_ignores.pop(first)`), with an error if it carries codes -/
+def moduleIgnore (ign : List (Nat × Codes)) (first : Option FirstStmt) : ModuleIgnore :=
+  match first, minLine ign with
+  | some s, some m =>
+    if m < getLineno s then
+      { wholeModule := true,
+        errCodes := match lookupLine m ign with
+          | some (c :: cs) => some (m, c :: cs)
+          | _ => none,
+        ignores := ign.filter (fun p => p.1 != m) }
+    else { wholeModule := false, errCodes := none, ignores := ign }
+  | _, _ => { wholeModule := false, errCodes := none, ignores := ign }
+
 end ParseNorm
